@@ -68,6 +68,8 @@ impl Seek for TestReader {
 pub struct Case {
     pub fmt: usize, pub color: usize, pub rect: bool, pub sw: u32, pub sh: u32, pub ox: u32, pub oy: u32, pub w: u32, pub h: u32,
     pub limit: usize, pub datalen: u64, pub fault: Option<u64>, pub start: u64, pub mode: u8,
+    /// extra bytes between the rows of the output view (not an argument of the model: no observable may depend on it)
+    pub pad: usize,
 }
 impl Case {
     pub fn args(&self) -> Vec<i128> {
@@ -82,12 +84,14 @@ pub fn observe(c: &Case, buf: &mut Vec<u8>) -> Obs {
     let (format, _) = FORMATS[c.fmt];
     let color = COLORS[c.color];
     let (iw, ih) = if c.rect { (c.w, c.h) } else { (c.sw, c.sh) };
-    let need = iw as usize * ih as usize * color.bytes_per_pixel() as usize;
+    let row = iw as usize * color.bytes_per_pixel() as usize;
+    let pitch = row + c.pad;
+    let need = if c.pad == 0 || ih == 0 { row * ih as usize } else { pitch * (ih as usize - 1) + row };
     if buf.len() < need { buf.resize(need, 0); }
     let mut rd = TestReader::new(c.datalen, c.start, c.fault, c.mode, c.datalen ^ 0x5a5a);
     let mut opts = DecodeOptions::default();
     opts.memory_limit = c.limit;
-    let view = ImageViewMut::new(&mut buf[..need], Size::new(iw, ih), color).expect("view");
+    let view = if c.pad == 0 { ImageViewMut::new(&mut buf[..need], Size::new(iw, ih), color) } else { ImageViewMut::new_with(&mut buf[..need], pitch, Size::new(iw, ih), color) }.expect("view");
     allocrec::start();
     let r = catch(|| {
         if c.rect { decode_rect(&mut rd, view, Offset::new(c.ox, c.oy), Size::new(c.sw, c.sh), format, &opts) }
@@ -159,7 +163,7 @@ pub fn run(out: &mut Out, tier: &str, seed: u64, corpus: Option<&str>, prop: &st
                 let t: Vec<i128> = lhs.split_whitespace().filter_map(|x| x.parse().ok()).collect();
                 if t.len() != 14 || t[0] != 6 { continue; }
                 let c = Case { fmt: t[1] as usize, color: t[2] as usize, rect: t[3] != 0, sw: t[4] as u32, sh: t[5] as u32, ox: t[6] as u32, oy: t[7] as u32,
-                    w: t[8] as u32, h: t[9] as u32, limit: t[10] as usize, datalen: t[11] as u64, fault: if t[12] < 0 { None } else { Some(t[12] as u64) }, start: t[13] as u64, mode: 0 };
+                    w: t[8] as u32, h: t[9] as u32, limit: t[10] as usize, datalen: t[11] as u64, fault: if t[12] < 0 { None } else { Some(t[12] as u64) }, start: t[13] as u64, mode: 0, pad: 0 };
                 if c.fmt < FORMATS.len() && c.color < 12 { emit(out, &c, &mut buf, prop); out.count("corpus"); }
             }
         }
@@ -185,7 +189,7 @@ pub fn run(out: &mut Out, tier: &str, seed: u64, corpus: Option<&str>, prop: &st
             let start = *rng.pick(&[0u64, 0, 7, 148, 1 << 20]);
             // big surfaces have no data behind them (allocation happens before the first read)
             let full_len = if big { start } else { start + total };
-            let base = Case { fmt: fi, color, rect, sw, sh, ox, oy, w, h, limit: default_limit, datalen: full_len, fault: None, start, mode: 0 };
+            let base = Case { fmt: fi, color, rect, sw, sh, ox, oy, w, h, limit: default_limit, datalen: full_len, fault: None, start, mode: 0, pad: 0 };
             // probe with the default limit to learn the allocation sizes, derive boundary limits
             let probe = observe(&base, &mut buf);
             let sizes: Vec<usize> = probe.all_allocs.iter().copied().filter(|&a| a >= NOISE).collect();
@@ -197,7 +201,9 @@ pub fn run(out: &mut Out, tier: &str, seed: u64, corpus: Option<&str>, prop: &st
             let nl = if prop == "C07" { limits.len() } else { 3 };
             for li in 0..nl {
                 let limit = if prop == "C07" { limits[li] } else { *rng.pick(&limits) };
-                let mut c = Case { limit, mode: rng.below(4) as u8, ..base };
+                // a third of the cases decode into a view with padded rows (the whole-image copy paths then read row by row)
+                let mut c = Case { limit, mode: rng.below(4) as u8, pad: if !big && rng.below(3) == 0 { 1 + rng.below(24) as usize } else { 0 }, ..base };
+                if c.pad != 0 { out.count("padded_view"); }
                 if !big && prop == "C06" {
                     match rng.below(6) {
                         0 => { c.datalen = start + rng.below(total + 1); }            // truncated
@@ -220,7 +226,7 @@ pub fn run(out: &mut Out, tier: &str, seed: u64, corpus: Option<&str>, prop: &st
                 for rect in [false, true] {
                     let (ox, oy) = (rng.below(sw as u64) as u32, rng.below(sh as u64) as u32);
                     let c = Case { fmt: fi, color: rng.below(12) as usize, rect, sw, sh, ox, oy, w: sw - ox, h: sh - oy, limit: default_limit,
-                        datalen: if k % 2 == 0 { total } else { k }, fault: if k % 2 == 0 { Some(k) } else { None }, start: 0, mode: rng.below(4) as u8 };
+                        datalen: if k % 2 == 0 { total } else { k }, fault: if k % 2 == 0 { Some(k) } else { None }, start: 0, mode: rng.below(4) as u8, pad: 0 };
                     emit(out, &c, &mut buf, prop);
                 }
             }
